@@ -1,1 +1,135 @@
-(* placeholder: to be written *)
+(** Trace checker for the locking correspondence run (C09): replays the operations the harness
+    executed on the real energy-factory / token-unstake / fees-collector and compares every
+    observation; plus the checker for the exhaustive getPenaltyAmount sweep.
+    Results are [] or [index; field; model value; implementation value] of the first difference. *)
+From MX Require Import Base.Prelude Gen.Params Model.Penalty.
+
+Record lobs := mkObs {
+  o_ok : bool;
+  o_outs : list Z;
+  o_now : Z;
+  o_bal : list (Z * Z * Z);       (* (holder, token, balance): base and every LOCKED nonce seen, users and escrow *)
+  o_held : list (Z * Z);          (* (holder, total LOCKED held) *)
+  o_tl : list (Z * Z);            (* (user, total_locked_tokens of getEnergyEntryForUser) *)
+  o_q : list (Z * list Z);        (* (user, getUnlockedTokensForUser flattened [release; epoch; locked; unlocked; ...]) *)
+  o_fees : Z;                     (* getAccumulatedFees(LOCKED) summed over weeks *)
+  o_bsupply : Z;                  (* base asset over all accounts *)
+  o_lsupply : Z;                  (* LOCKED over all accounts (the factory's one-unit nonce seeds excluded) *)
+  o_opts : list Z                 (* getLockOptions flattened *)
+}.
+
+Fixpoint list_eqb (a b : list Z) : bool :=
+  match a, b with
+  | [], [] => true
+  | x :: a', y :: b' => (x =? y) && list_eqb a' b'
+  | _, _ => false
+  end.
+
+Fixpoint first_bal_diff (s : lst) (l : list (Z * Z * Z)) : option (Z * Z * Z) :=
+  match l with
+  | [] => None
+  | (h, t, v) :: r => if bal (l_led s) h t =? v then first_bal_diff s r else Some (h * 100000 + t, bal (l_led s) h t, v)
+  end.
+
+Fixpoint first_held_diff (s : lst) (l : list (Z * Z)) : option (Z * Z * Z) :=
+  match l with
+  | [] => None
+  | (h, v) :: r => if held_locked s h =? v then first_held_diff s r else Some (h, held_locked s h, v)
+  end.
+
+Fixpoint first_tl_diff (s : lst) (l : list (Z * Z)) : option (Z * Z * Z) :=
+  match l with
+  | [] => None
+  | (u, v) :: r => if tl_of s u =? v then first_tl_diff s r else Some (u, tl_of s u, v)
+  end.
+
+Definition flat_queue (q : list uentry) : list Z :=
+  flat_map (fun en => [en_release en; en_epoch en; en_lk en; en_un en]) q.
+
+Fixpoint first_q_diff (s : lst) (l : list (Z * list Z)) : option (Z * Z * Z) :=
+  match l with
+  | [] => None
+  | (u, v) :: r =>
+      let m := flat_queue (view_queue s u) in
+      if list_eqb m v then first_q_diff s r else Some (u, Z.of_nat (length m), Z.of_nat (length v))
+  end.
+
+Definition flat_opts (l : list opt) : list Z := flat_map (fun o => [fst o; snd o]) l.
+
+Definition cmp_state (i : Z) (s : lst) (o : lobs) : list Z :=
+  if negb (l_now s =? o_now o) then [i; 10; l_now s; o_now o]
+  else match first_bal_diff s (o_bal o) with
+  | Some (k, m, v) => [i; 1000000 + k; m; v]
+  | None =>
+  match first_held_diff s (o_held o) with
+  | Some (k, m, v) => [i; 200 + k; m; v]
+  | None =>
+  match first_tl_diff s (o_tl o) with
+  | Some (k, m, v) => [i; 400 + k; m; v]
+  | None =>
+  match first_q_diff s (o_q o) with
+  | Some (k, m, v) => [i; 600 + k; m; v]
+  | None =>
+  if negb (l_fees s =? o_fees o) then [i; 11; l_fees s; o_fees o]
+  else if negb (base_supply s =? o_bsupply o) then [i; 12; base_supply s; o_bsupply o]
+  else if negb (locked_supply s =? o_lsupply o) then [i; 13; locked_supply s; o_lsupply o]
+  else if negb (list_eqb (flat_opts (opts s)) (o_opts o)) then [i; 14; Z.of_nat (length (opts s)); Z.of_nat (length (o_opts o)) / 2]
+  else []
+  end end end end.
+
+Fixpoint check_trace (s : lst) (i : Z) (tr : list (lop * lobs)) : list Z :=
+  match tr with
+  | [] => []
+  | (op, o) :: t =>
+      match step s op with
+      | Ok (s', outs) =>
+          if negb (o_ok o) then [i; 1; 1; 0]
+          else if negb (list_eqb outs (o_outs o)) then [i; 2; hd (-1) outs; hd (-1) (o_outs o)]
+          else match cmp_state i s' o with
+               | [] => check_trace s' (i + 1) t
+               | d => d
+               end
+      | Err _ =>
+          if o_ok o then [i; 1; 0; 1]
+          else match cmp_state i s o with
+               | [] => check_trace s (i + 1) t
+               | d => d
+               end
+      end
+  end.
+
+Definition init_world (os : list opt) (unbond burn now : Z) (funds : list (Z * Z)) : lst :=
+  match init_cfg os unbond burn with
+  | Ok c => init_state c now funds
+  | Err _ => init_state (mkCfg [] 0 0 true) now funds
+  end.
+
+(** ------------------------------------------------------------------ getPenaltyAmount sweep
+    rows: (remaining epochs [prev], amount, observed results for every [new] of [news]); an observed
+    error is -1. *)
+Definition view_val (os : list opt) (amt prev new : Z) : Z :=
+  match penalty_amount os amt prev new with Ok v => v | Err _ => -1 end.
+
+Fixpoint row_diff (os : list opt) (amt prev : Z) (news vals : list Z) : list Z :=
+  match news, vals with
+  | n :: ns, v :: vs => if view_val os amt prev n =? v then row_diff os amt prev ns vs
+                        else [prev; n; view_val os amt prev n; v]
+  | [], [] => []
+  | _, _ => [prev; -2; 0; 0]
+  end.
+
+Fixpoint sweep_check (os : list opt) (news : list Z) (rows : list (Z * Z * list Z)) : list Z :=
+  match rows with
+  | [] => []
+  | (prev, amt, vals) :: t =>
+      match row_diff os amt prev news vals with
+      | [] => sweep_check os news t
+      | d => d
+      end
+  end.
+
+Definition sweep (os : list opt) (news : list Z) (rows : list (Z * Z * list Z)) : list Z :=
+  match add_lock_options [] os with
+  | Ok l => sweep_check l news rows
+  | Err _ => [-1; -1; 0; 0]
+  end.
